@@ -390,9 +390,10 @@ def main():
             if (not r["eq"] or not r["hi"] or not r["hm"] or r["miss"]) and shown < a.show:
                 shown += 1
                 log("----", r["id"], "eq=%d hm=%d hi=%d miss=%d" % (r["eq"], r["hm"], r["hi"], r["miss"]))
-                log("  scn :", byid.get(r["id"]))
-                log("  model:", r["pm"])
-                log("  impl :", r["pi"])
+                short = lambda x: re.sub(r"[0-9a-f]{64,}", lambda m: m.group(0)[:56] + "…", x or "")
+                log("  scn :", short(byid.get(r["id"])))
+                log("  model:", short(r["pm"]))
+                log("  impl :", short(r["pi"]))
     known = [k for k in load_known() if k["property"] == prop and k.get("status") == "known"]
 
     broken = []        # framework problems (never a verdict about the property)
